@@ -291,6 +291,24 @@ def check(ctx):
             r4.ok("the loop is fed from the `types` argument")
         else:
             r4.bad(V(r4.id, s.id, "loop-source", "the visiting loop is not fed from the requested set"))
+        # ... from all of it: nothing between the `types` argument and the visiting loop drops names ("start at the roots only" loses every type
+        # that sits on a cycle no root reaches)
+        DROP = {"filter", "filter_map", "take", "skip", "take_while", "skip_while", "step_by", "retain", "dedup", "truncate", "pop", "remove", "nth", "first", "last", "find"}
+        for c in vc[:1]:
+            heads = s.enclosing_loop_heads(c.bb)
+            hc = s.call_at(max(heads, key=lambda h: len(s.dom[h]))) if heads else None
+            if hc is None or not hc.args:
+                r4.bad(V(r4.id, s.id, "visit-not-in-loop", "topological_visit is not called from a loop over the requested names"))
+                continue
+            fed = {x.split("::")[-1] for x in s.feeding_calls(hc.args[0], depth=10)}
+            # a Vec assigned on several paths: every assignment counts
+            dropped = sorted(fed & DROP)
+            if dropped:
+                r4.bad(V(r4.id, s.id, "requested-names-dropped:%s" % ",".join(dropped),
+                         "the names the visiting loop runs over are the requested set passed through %s: a requested type that is filtered out and not reached from another one is missing from the order"
+                         % ", ".join(dropped), hc.file, hc.line))
+            else:
+                r4.ok("the visiting loop runs over every requested name")
     r1.require_floor(2, "recursion guards")
     r2.require_floor(3, "exactly-once facts")
     r3.require_floor(2, "post-order facts")
